@@ -199,8 +199,8 @@ def _check_sig(spec, stats):
                 r = f()
             except Exception as e:
                 raise Violation(f"C20/sig-eq-foreign/{cls}", f"{sa!r} {how} <{c}: {o!r}> raised {type(e).__name__}: {e}")
-            if c == "generic" and how != "==":
-                continue          # what a plain wiring.Signature makes of the comparison is Amaranth's business
+            if c == "generic":
+                continue          # comparing with a plain wiring.Signature must not fail; its verdict is not the property's business
             if r:
                 raise Violation(f"C20/sig-eq-foreign/{cls}", f"{sa!r} {how} <{c}: {o!r}> holds")
     # copies carry the same defining parameters (and a signature that was flipped twice, used to
